@@ -3,7 +3,7 @@ LEMMA_MODULE = {}
 def _reg(mod, names):
     for n in names: LEMMA_MODULE[n] = mod
 _reg('blake', ['B1', 'B2', 'B3', 'B4', 'B5'])
-_reg('argon', ['G1', 'G2', 'G4'])
+_reg('argon', ['G1', 'G2', 'G3', 'G4', 'G5', 'G6', 'B6'])
 _reg('aes', ['A1', 'A2', 'A3', 'A5', 'A4'])
 _reg('isa', ['I1', 'I4', 'I6'])
 _reg('jit', ['J1', 'X0', 'X1'])
@@ -21,7 +21,7 @@ PROPS = {
    files=['src/blake2/blake2b.c', 'src/blake2/blake2.h', 'src/blake2/blake2-impl.h', 'src/blake2/endian.h', 'src/randomx.cpp'],
    explanation='Blake2b conformance is decomposed into lemmas over the real functions of src/blake2/blake2b.c lowered to LLVM IR on this run: B1 the compression function equals RFC 7693 F for all inputs (term-level equivalence); B2 one blake2b_update call from an arbitrary valid state equals the byte-wise RFC streaming semantics for every (buflen, inlen) inside the bound, with the compression function abstracted to an uninterpreted function (sound by B1) and an arbitrary 128-bit counter (covers totals beyond 2^32 and 2^64 carries) - because the reference is a fold over bytes, every chunking of a message gives the same state; B3 blake2b_final equals the RFC final step and writes exactly outlen bytes; B4 init/init_key build the RFC parameter block over arbitrary stale memory, invalid parameters are rejected, and the one-shot blake2b() is init;update;final with rejected calls never writing; B5 the commitment is Blake2b-256(input||hash). The composition of the lemmas into the end-to-end statement is a paper argument (DESIGN.md 6/C11).',
    trusted=['RFC 7693 transcription in spec/blake2b_ref.py (self-tested against hashlib)'], outside=['single update calls longer than the stated bound; composition of lemmas is on paper']),
- 'C10': dict(level='other', lemmas=['G1', 'G2', 'G4', 'B1', 'B2', 'B3', 'B4', 'H3'],
+ 'C10': dict(level='other', lemmas=['G1', 'G2', 'G4', 'B1', 'B2', 'B3', 'B4', 'H3', 'G3', 'G5', 'G6', 'B6'],
    files=['src/dataset.cpp', 'src/argon2_core.c', 'src/argon2_ref.c', 'src/argon2_ssse3.c', 'src/argon2_avx2.c', 'src/blake2/blamka-round-ref.h', 'src/blake2/blamka-round-ssse3.h', 'src/blake2/blamka-round-avx2.h', 'src/blake2/blake2b.c'],
    explanation='TODO', trusted=['RFC 9106 transcription in spec/argon2_ref.py'], outside=[]),
  'C12': dict(level='other', lemmas=['A1', 'A2', 'A3', 'A5', 'A4'],
@@ -60,7 +60,7 @@ PROPS = {
  'C14': dict(level='other', footprint=True, max_jobs_per_lemma=6, lemmas=['F1', 'K1', 'H6', 'H7', 'I8', 'J3', 'J5', 'I1', 'J1', 'D1', 'D2', 'S1', 'S4', 'A5', 'A2', 'B2', 'B3', 'H1', 'H3', 'G4'],
    files=['src/randomx.cpp', 'src/virtual_machine.cpp', 'src/dataset.cpp', 'src/vm_interpreted_light.cpp', 'src/vm_compiled_light.cpp', 'src/superscalar.cpp', 'src/soft_aes.cpp', 'src/cpu.cpp', 'src/jit_compiler_x86_static.S'],
    explanation='TODO', trusted=[], outside=[]),
- 'C02': dict(level='other', lemmas=['H1', 'F1', 'I7', 'I8', 'I1', 'B1', 'B2', 'B3', 'B4', 'A1', 'A2', 'A3', 'A5', 'S1', 'S4', 'S5', 'D1', 'G1', 'G4', 'R1'],
+ 'C02': dict(level='other', lemmas=['H1', 'F1', 'I7', 'I8', 'I1', 'B1', 'B2', 'B3', 'B4', 'A1', 'A2', 'A3', 'A5', 'S1', 'S4', 'S5', 'D1', 'G1', 'G4', 'R1', 'G3', 'G5', 'G6', 'B6'],
    files=['doc/specs.md', 'src/randomx.cpp', 'src/virtual_machine.cpp', 'src/vm_interpreted.cpp', 'src/bytecode_machine.cpp', 'src/bytecode_machine.hpp', 'src/aes_hash.cpp', 'src/dataset.cpp', 'src/superscalar.cpp', 'src/blake2_generator.cpp', 'src/argon2_core.c', 'src/argon2_ref.c', 'src/blake2/blake2b.c', 'src/configuration.h'],
    explanation='TODO', trusted=[], outside=[]),
  'C01': dict(level='other', lemmas=['K1', 'J3', 'J1', 'I1', 'I8', 'A2', 'A3', 'A5', 'D1', 'D2', 'S4', 'G2', 'G4', 'H1', 'H7'],
